@@ -126,6 +126,87 @@ def exportedResolve (order dummyFor builtins : List String) (t : SpaceNames) (n 
 def BuiltinNamedSpaceOrParam (dummyFor builtins : List String) (t : SpaceNames) (n : String) : Prop :=
   builtins.contains n = true ∧ (topNames dummyFor t).contains n = false ∧ t.isMember n = true
 
+/-! ## 1b. which scope decides: the climb through inlined comprehensions
+
+Since Python 3.12 (PEP 709) a list / set / dict comprehension has no symbol table of its own; libcst still
+gives it a scope whose `assignments` are its loop variables.  `should_replace` therefore climbs from the
+scope in which the name occurs to the nearest scope that has a table, and AT EVERY comprehension on the
+way treats the comprehension's own variables as local.  `Frame` is what the transformer has in hand for
+one scope, `classify` is the loop, `PyScope`/`pyKind` is Python's own rule (every comprehension, lambda,
+function, generator expression is a scope; a name is local or free iff one of the scopes around the
+occurrence binds it), `view` says what the transformer sees of a chain of Python scopes. -/
+
+/-- one scope around an occurrence, as the transformer sees it (the list is innermost first) -/
+inductive Frame where
+  /-- an inlined comprehension: no symbol table; libcst knows its loop variables -/
+  | comp (binds : List String)
+  /-- a scope with a symbol table (function, lambda, generator expression): the names that are NOT
+  global there - bound in it, or free (bound in a scope around it) -/
+  | table (nonGlobal : List String)
+  deriving Repr
+
+/-- the scope look-up of `should_replace`: `while n_to_s is None: if name in scope.assignments:
+return False; scope = scope.parent` and then the table's `is_global()` -/
+def classify (n : String) : List Frame → ScopeKind
+  | [] => .absent
+  | .comp b :: rest => if b.contains n then .localOrFree else classify n rest
+  | .table ng :: _ => if ng.contains n then .localOrFree else .global
+
+/-- the nearest table only (the comprehensions on the way are not asked) -/
+def skipToTable (n : String) : List Frame → ScopeKind
+  | [] => .absent
+  | .comp _ :: rest => skipToTable n rest
+  | .table ng :: _ => if ng.contains n then .localOrFree else .global
+
+/-- the variant of seeded change C15-mutD: the own-variable test only for the INNERMOST comprehension -/
+def classifyInnermostOnly (n : String) : List Frame → ScopeKind
+  | .comp b :: rest => if b.contains n then .localOrFree else skipToTable n rest
+  | fs => classify n fs
+
+/-- a scope of the formula as Python defines it -/
+structure PyScope where
+  binds   : List String          -- loop variables / parameters / assigned names / walrus targets
+  inlined : Bool := false        -- a list / set / dict comprehension on Python >= 3.12
+  deriving Repr
+
+def pyBound (n : String) (ss : List PyScope) : Bool := ss.any (fun s => s.binds.contains n)
+
+/-- Python: local or free if a scope around the occurrence binds the name, else global -/
+def pyKind (n : String) (ss : List PyScope) : ScopeKind :=
+  if pyBound n ss then .localOrFree else .global
+
+/-- what libcst + symtable give for a chain of scopes (innermost first): an inlined comprehension shows
+its own variables; a scope with a table shows every name bound in it or around it (`is_global()` is
+false for locals and for free variables) -/
+def view : List PyScope → List Frame
+  | [] => []
+  | s :: rest =>
+    (if s.inlined then Frame.comp s.binds else Frame.table ((s :: rest).flatMap (·.binds))) :: view rest
+
+/-- the rewriting decision at one occurrence -/
+def shouldReplaceAt (order dummyFor builtins : List String) (t : SpaceNames) (fs : List Frame)
+    (n : String) : Bool :=
+  shouldReplace order dummyFor builtins t (classify n fs) n
+
+/-- what a name means at an occurrence -/
+inductive Meaning where
+  | localVar                 -- the variable of an enclosing scope of the formula
+  | target (t : Target)      -- a global of the formula: member of the space / built-in / nothing
+  deriving DecidableEq, Repr
+
+/-- modelx runs the formula as it is: Python's scoping, then the space's namespace, then the built-ins -/
+def mxMeaning (builtins : List String) (t : SpaceNames) (ss : List PyScope) (n : String) : Meaning :=
+  if pyBound n ss then .localVar else .target (mxResolve builtins t n)
+
+/-- the exported method: a name that was not rewritten and is bound by an enclosing scope is still that
+variable (the rewriting changes no binding); otherwise as `exportedResolve` -/
+def exportedMeaning (order dummyFor builtins : List String) (t : SpaceNames) (ss : List PyScope)
+    (n : String) : Meaning :=
+  if shouldReplaceAt order dummyFor builtins t (view ss) n then
+    .target (if t.isMember n then .member else .unbound)
+  else if pyBound n ss then .localVar
+  else .target (if builtins.contains n then .builtin else .unbound)
+
 /-! ## 2. arguments and references along a path through (nested) ItemSpaces -/
 
 abbrev Env := List (String × Int)
